@@ -82,10 +82,44 @@ func runStream(data []byte, errat int, errkind string, sched []int, withData boo
 	if err := r.Initialize(); err != nil {
 		fatal("reader init: %v", err)
 	}
-	var out []ResJ
+	// The results are converted only after the whole stream has been read: a frame handed to the caller must stay
+	// what it was while the reader goes on (it must not alias the reader's buffers).
+	type rawRes struct {
+		fr  frame.Frame
+		err error
+		pan bool
+		cur int
+	}
+	var raws []rawRes
 	for calls := 0; calls < limit+8; calls++ {
-		res := safeRead(r)
-		j := ResJ{K: res.K, F: res.F, Dec: res.Dec, Cur: src.drawn - br.Buffered()}
+		var rr rawRes
+		func() {
+			defer func() {
+				if p := recover(); p != nil {
+					rr.pan = true
+				}
+			}()
+			rr.fr, rr.err = r.Read()
+		}()
+		rr.cur = src.drawn - br.Buffered()
+		raws = append(raws, rr)
+		if rr.pan {
+			break
+		}
+		if rr.err != nil {
+			var re frame.ReadError
+			if !errors.As(rr.err, &re) {
+				break
+			}
+		}
+	}
+	var out []ResJ
+	for _, rr := range raws {
+		res := readRes{K: "panic"}
+		if !rr.pan {
+			res = classify(rr.fr, rr.err)
+		}
+		j := ResJ{K: res.K, F: res.F, Dec: res.Dec, Cur: rr.cur}
 		if res.K == "terr" {
 			switch res.Err {
 			case io.EOF.Error():
@@ -97,9 +131,6 @@ func runStream(data []byte, errat int, errkind string, sched []int, withData boo
 			}
 		}
 		out = append(out, j)
-		if res.K == "terr" || res.K == "panic" {
-			break
-		}
 	}
 	return out
 }
